@@ -156,7 +156,7 @@ def schema_list(tier):
 
 
 def units(tier):
-    return list(range(len(schema_list(tier))))
+    return ["handmade"] + list(range(len(schema_list(tier))))
 
 
 def outcome(fn):
@@ -338,9 +338,64 @@ def _shorten_hint(d):
     return out if done[0] else None
 
 
+# piecewise configurations that no hoisting of a raw schema produces: a piece keeps the inline definition of a type that
+# the main schema (parsed later against the same table) refers to BEFORE it refers to the piece
+HANDMADE_PIECEWISE = [
+    ("definition-inside-later-piece",
+     {"type": "record", "name": "Parent", "namespace": "n", "fields": [
+         {"name": "a", "type": {"type": "fixed", "name": "G", "size": 2}}, {"name": "b", "type": {"type": "record", "name": "Child", "fields": [{"name": "g", "type": "G"}, {"name": "gs", "type": {"type": "array", "items": "n.G"}}]}},
+         {"name": "c", "type": ["null", "Child"], "default": None}]},
+     [{"type": "record", "name": "Child", "namespace": "n", "fields": [{"name": "g", "type": {"type": "fixed", "name": "G", "size": 2}}, {"name": "gs", "type": {"type": "array", "items": "n.G"}}]}],
+     {"type": "record", "name": "Parent", "namespace": "n", "fields": [{"name": "a", "type": "n.G"}, {"name": "b", "type": "n.Child"}, {"name": "c", "type": ["null", "n.Child"], "default": None}]},
+     [{"a": b"xy", "b": {"g": b"zz", "gs": [b"12"]}, "c": None}, {"a": b"\x00\xff", "b": {"g": b"ab", "gs": []}, "c": {"g": b"cd", "gs": [b"ef", b"gh"]}}]),
+    ("two-pieces-sharing-an-inner-enum",
+     {"type": "record", "name": "Top", "namespace": "m", "fields": [
+         {"name": "k", "type": {"type": "enum", "name": "K", "symbols": ["A", "B"]}},
+         {"name": "x", "type": {"type": "record", "name": "X", "fields": [{"name": "k", "type": "K"}]}}, {"name": "y", "type": {"type": "record", "name": "Y", "fields": [{"name": "k", "type": "m.K"}, {"name": "x", "type": "X"}]}}]},
+     [{"type": "record", "name": "X", "namespace": "m", "fields": [{"name": "k", "type": {"type": "enum", "name": "K", "symbols": ["A", "B"]}}]},
+      {"type": "record", "name": "Y", "namespace": "m", "fields": [{"name": "k", "type": "m.K"}, {"name": "x", "type": "m.X"}]}],
+     {"type": "record", "name": "Top", "namespace": "m", "fields": [{"name": "k", "type": "m.K"}, {"name": "x", "type": "m.X"}, {"name": "y", "type": "m.Y"}]},
+     [{"k": "B", "x": {"k": "A"}, "y": {"k": "B", "x": {"k": "B"}}}]),
+]
+
+
+def run_handmade(fa, res):
+    seen = 0
+    for label, raw, pieces, main, data in HANDMADE_PIECEWISE:
+        table = {}
+        try:
+            for p in pieces:
+                fa.parse_schema(copy.deepcopy(p), table)
+            pw = fa.parse_schema(copy.deepcopy(main), table)
+        except Exception as e:
+            res.add(Violation("c12.piecewise-parse", f"piecewise-parse-raised:{type(e).__name__}:handmade", f"{label}: {type(e).__name__}: {e}", {"schema": raw, "hoist": [label], "op": "parse", "handmade": label}))
+            continue
+        ref_s = schema_ops(fa, copy.deepcopy(raw))
+        got_s = schema_ops(fa, pw)
+        for op, val in got_s.items():
+            res.evals += 1
+            seen += 1
+            if op != "generate" and not _same_outcome(val, ref_s[op]):
+                res.add(Violation("c12.schema-op", f"{op}-differs:handmade-piecewise", f"{label}: {op} under the piecewise form = {short(val, 300)}, under the equivalent raw schema {short(ref_s[op], 300)}", {"schema": raw, "hoist": [label], "op": op, "handmade": label}))
+        for d in data:
+            ref_out = ops(fa, copy.deepcopy(raw), d, raw)
+            got = ops(fa, pw, d, raw)
+            for op, val in got.items():
+                res.evals += 1
+                seen += 1
+                if not _same_outcome(val, ref_out[op]):
+                    res.add(Violation("c12.data-op", f"{op}-differs:handmade-piecewise", f"{label}: {op} of {short(d, 120)} under the piecewise form = {short(val, 250)}, equivalent raw schema {short(ref_out[op], 250)}", {"schema": raw, "hoist": [label], "op": op, "handmade": label, "datum": d}))
+    res.distinct = seen
+    res.sample({"handmade_piecewise": [h[0] for h in HANDMADE_PIECEWISE]})
+    return res
+
+
 def run_unit(i, tier):
     import fastavro as fa
     import fastavro.schema  # noqa
+
+    if i == "handmade":
+        return run_handmade(fa, UnitResult())
 
     res = UnitResult()
     raw = schema_list(tier)[i]
@@ -498,6 +553,10 @@ def replay(case):
     import fastavro.schema  # noqa
 
     res = UnitResult()
+    if case.get("handmade"):
+        r = run_handmade(fa, res)
+        keep = [v for v in r.violations if v["case"].get("handmade") == case["handmade"] and v["case"].get("op") == case.get("op")]
+        return keep or r.violations
     raw = case["schema"]
     i = [k for k, s in enumerate(schema_list("quick")) if s == raw]
     if not i:
